@@ -177,9 +177,7 @@ theorem tga_rleLoop_nhs (bpp size : Nat) :
           intro got s2 _ h2
           try dsimp only
           split
-          · apply NHs.bind (nh_setTaint _ s2)
-            intro _ s3 _ h3
-            exact tga_rleLoop_nhs bpp size fuel _ _ s3 (by omega)
+          · exact nh_ioErr s2
           · exact tga_rleLoop_nhs bpp size fuel _ _ s2 (by omega)
     · exact nh_pure _ s
 
@@ -770,7 +768,9 @@ theorem se_bmp_readHeader {P : Stop → Prop} (hP : Adm P) : SE P Bmp.readHeader
   apply se_bind (se_bmp_readHeader0 hP); intro i
   split
   · exact se_ioErr hP
-  · exact se_pure _
+  · split
+    · exact se_ioErr hP
+    · exact se_pure _
 
 theorem se_checkSettings {P : Stop → Prop} (hP : Adm P) (st : Settings) (a b c d : Int) : SE P (checkSettings st a b c d) := by
   unfold checkSettings
